@@ -628,11 +628,16 @@ def tables(repo=None):
             eff[g] = w
             notes += ['%s.%s: %s' % (cname, g, n) for n in w.notes]
         init = all_funcs.get('__init__')
-        has_input = any('input' == a.arg for a in init.args.args) if init else False
+        has_input = (any('input' == a.arg for a in init.args.args) if init else False) or 'set_input' in all_funcs
         assigned, derived, present = ([], [], [])
         if init is not None:
             in_names = [a.arg for a in init.args.args if a.arg in ('input', 'time_series', 'seed_time_series', 'target_time_series', 'events')]
             assigned, derived, present = init_info(init, classes, cname, tuple(in_names) if has_input else ('input',))
+        # an overriding set_input that recomputes slots from the new input
+        refreshed = []
+        si = all_funcs.get('set_input')
+        if si is not None and not any(ci.name == 'BaseAnalyzer' and ci.funcs.get('set_input') is si for ci in chain):
+            _, refreshed, _ = init_info(si, classes, cname, tuple(a.arg for a in si.args.args if a.arg != 'self'))
         # ---- slots
         slots = []
 
@@ -714,6 +719,7 @@ def tables(repo=None):
                     'recs': recs, 'initPresent': init_present,
                     'initDerived': [slots.index(s) for s in derived if s in slots] if has_input else [],
                     'derivedNames': derived if has_input else [],
+                    'refreshed': [slots.index(s) for s in refreshed if s in slots and s in derived],
                     'inherited': [gid[g] for g in topo if g not in own],
                     'hasInput': has_input, 'hasReset': any(('ResetMixin' in ci.bases) for ci in chain),
                     'hasSetInput': 'set_input' in all_funcs, 'notes': notes})
@@ -762,7 +768,8 @@ def gen_analyzers():
         L.append('    ]')
         L.append('    initPresent := %s' % lpairs(c['initPresent']))
         L.append('    initDerived := [%s]' % ', '.join(str(i) for i in c['initDerived']))
-        L.append('    inherited := [%s] }' % ', '.join(str(i) for i in c['inherited']))
+        L.append('    inherited := [%s]' % ', '.join(str(i) for i in c['inherited']))
+        L.append('    refreshed := [%s] }' % ', '.join(str(i) for i in c['refreshed']))
         L.append('')
     def san(x):
         return ''.join(ch if ch.isalnum() else '_' for ch in x)
@@ -784,7 +791,7 @@ def gen_analyzers():
     L += ['', 'end Nitime.Generated', '']
     echo = {'reset': t['reset'], 'inplace_helpers': t['inplace'],
             'classes': {c['cls']: {'getters': c['getters'], 'slots': c['slots'], 'flags': c['flags'],
-                                   'derived': c['derivedNames'], 'notes': c['notes'],
+                                   'derived': c['derivedNames'], 'refreshed': [c['slots'][i] for i in c['refreshed']], 'notes': c['notes'],
                                    'effects': {r['name']: {k: r[k] for k in ('writes', 'dwrites', 'clobbers', 'clobbersInput') if r[k]}
                                                for r in c['recs'] if r['writes'] or r['dwrites'] or r['clobbers'] or r['clobbersInput']}}
                         for c in t['classes']}}
